@@ -416,3 +416,21 @@ _RULE_ADD['C12'] = _RULE_ADD['C11']
 _RULE_ADD['C05'] = _RULE_ADD['C06'] = _RULE_ADD['C04']
 for _p, _t in _RULE_ADD.items():
     PROPS[_p]['rule'] = PROPS[_p]['rule'] + _t
+
+# features added after the seventh round
+for _p, _m in {'C08': {'slow_traffic_frames_handled': 500}, 'C11': {'malformed_declines': 200, 'time_passing_without_tick': 300, 'rebinding_requests': 400},
+               'C12': {'malformed_declines': 200, 'time_passing_without_tick': 300, 'rebinding_requests': 400}, 'C13': {'dhcp_confirmations': 30},
+               'C16': {'forwarded_copy_pairs_measured': 500}, 'C18': {'full_lan_restarts_checked': 2, 'full_lan_bindings_checked': 300}}.items():
+    PROPS[_p]['min_obs'] = dict(PROPS[_p]['min_obs'])
+    PROPS[_p]['min_obs']['quick'] = dict(PROPS[_p]['min_obs'].get('quick', {}), **_m)
+_RULE_ADD2 = {
+    'C08': ' A sub-stream feeds the same kinds of frames minutes apart on a virtual clock (rate limited log statements, cache expiry) and 802.3 frames carry payloads up to the MTU.',
+    'C11': ' DECLINEs that name no / a malformed / somebody else\'s address, a client with a zero length client identifier, renewals broadcast (rebinding), and time passing without a MinuteTicker call are part of the histories.',
+    'C13': ' Op confirm: the DHCP handler confirms the station\'s address (DHCPv4Update), which replaces the offer on record.',
+    'C16': ' A tracked client\'s frame and its forwarded copy (this host\'s MAC as source) alternating must stay allocation free and the copy must not get a host.',
+    'C18': ' Full LAN: 150..240 clients with long identifiers lease addresses (lease file of several hundred KiB), restart, every binding present, renewals acknowledged, no bound address offered.',
+    'C01': ' View seeds include LLDPDUs with TLVs of up to 511 bytes and DHCP messages with 255 byte options.',
+}
+_RULE_ADD2['C12'] = _RULE_ADD2['C11']
+for _p, _t in _RULE_ADD2.items():
+    PROPS[_p]['rule'] = PROPS[_p]['rule'] + _t
